@@ -40,11 +40,103 @@ pub mod spec_writer {
     /// A compression pointer to offset `p` (RFC 1035 4.1.4): two octets `11pppppp pppppppp`.
     pub open spec fn ptr_octets(p: u16) -> Seq<u8> { u16_be((0xc000u16 | p) as u16) }
 
-    /// RFC 1035 4.1.4: `p` is the offset of the first octet of a label (not of a
-    /// pointer) of a name that lies completely inside `msg[0, end)` and decodes.
-    pub open spec fn label_start_at(msg: Seq<u8>, end: int, p: int) -> bool {
-        12 <= p < end && end <= msg.len() && msg[p] < 192
-            && dec(msg.subrange(0, end), p) is Some
+    /// RFC 1035 4.1.4 walk: from position `i` of the chunk that started at `cs`, the octets of
+    /// `b[lb, end)` form labels (1..=63 octets each) up to a null label, possibly continuing
+    /// through compression pointers, each of which points strictly before the start of the
+    /// chunk it ends and not below `lb`.  (The validity part of the C14 reference decoder
+    /// `dec`, plus the lower bound `lb` that keeps the walk out of the header.)
+    pub open spec fn lab_ok(b: Seq<u8>, lb: int, end: int, cs: int, i: int) -> bool
+        decreases cs, end - i
+    {
+        if i < lb || i >= end || end > b.len() || cs < lb || cs > i { false }
+        else if b[i] >= 192 {
+            i + 1 < end && {
+                let p = ((b[i] as int) % 64) * 256 + (b[i + 1] as int);
+                lb <= p < cs && lab_ok(b, lb, end, p, p)
+            }
+        }
+        else if b[i] > 63 { false }
+        else if b[i] == 0 { true }
+        else { i + b[i] as int + 1 < end && lab_ok(b, lb, end, cs, i + b[i] as int + 1) }
+    }
+
+    /// [C13] `p` is the first octet of a label (not a pointer) of a name that lies, with
+    /// everything its pointers lead to, in `b[lb, end)`.
+    pub open spec fn label_start(b: Seq<u8>, lb: int, end: int, p: int) -> bool {
+        lb <= p < end && end <= b.len() && b[p] < 192 && lab_ok(b, lb, end, p, p)
+    }
+
+    /// Label starts of the message body (offsets >= 12) survive the step from buffer `a` with
+    /// message end `n` to buffer `b` with message end `m`, and stay label starts for every
+    /// earlier message end.
+    pub open spec fn kept(a: Seq<u8>, n: int, b: Seq<u8>, m: int) -> bool {
+        &&& forall|p: int| #[trigger] label_start(a, 12, n, p) ==> label_start(b, 12, m, p)
+        &&& forall|e: int, p: int| e <= n && #[trigger] label_start(a, 12, e, p) ==> label_start(b, 12, e, p)
+    }
+
+    /// A walk only depends on the octets in `[lb, end)` and survives growing `end`.
+    pub proof fn lemma_lab_ok_frame(a: Seq<u8>, b: Seq<u8>, lb: int, n: int, m: int, cs: int, i: int)
+        requires
+            lab_ok(a, lb, n, cs, i),
+            n <= m <= b.len(),
+            forall|k: int| lb <= k < n ==> a[k] == b[k],
+        ensures lab_ok(b, lb, m, cs, i),
+        decreases cs, n - i
+    {
+        if a[i] >= 192 {
+            let p = ((a[i] as int) % 64) * 256 + (a[i + 1] as int);
+            lemma_lab_ok_frame(a, b, lb, n, m, p, p);
+        } else if a[i] == 0 {
+        } else {
+            lemma_lab_ok_frame(a, b, lb, n, m, cs, i + a[i] as int + 1);
+        }
+    }
+
+    /// Writing at or beyond the message end `n` (or into the header) keeps every label start.
+    pub proof fn lemma_kept(a: Seq<u8>, b: Seq<u8>, n: int, m: int)
+        requires
+            n <= m <= b.len(),
+            forall|k: int| 12 <= k < n ==> a[k] == b[k],
+        ensures kept(a, n, b, m),
+    {
+        assert forall|p: int| #[trigger] label_start(a, 12, n, p) implies label_start(b, 12, m, p) by {
+            lemma_lab_ok_frame(a, b, 12, n, m, p, p);
+        }
+        assert forall|e: int, p: int| e <= n && #[trigger] label_start(a, 12, e, p) implies label_start(b, 12, e, p) by {
+            lemma_lab_ok_frame(a, b, 12, e, e, p, p);
+        }
+    }
+
+    /// An uncompressed valid name stored at `c` is a walk from `c + k` for each of its label
+    /// offsets `k`.
+    pub proof fn lemma_placed_name_lab_ok(b: Seq<u8>, lb: int, end: int, c: int, w: Seq<u8>, k: int)
+        requires
+            valid_name(w), placed(b, c, w), lb <= c, c + w.len() <= end <= b.len(),
+            0 <= k < w.len(), labels_ok(w.drop_last(), k),
+        ensures lab_ok(b, lb, end, c, c + k),
+        decreases w.len() - k
+    {
+        let d = w.drop_last();
+        assert(b[c + k] == w[k]);
+        if k == d.len() {
+            assert(w[k] == w.last());
+        } else {
+            assert(w[k] == d[k]);
+            let nk = k + d[k] as int + 1;
+            assert(nk <= d.len());
+            lemma_placed_name_lab_ok(b, lb, end, c, w, nk);
+        }
+    }
+
+    /// [C13] The first octet of an uncompressed valid name stored at `c` is a label start.
+    pub proof fn lemma_placed_name_label_start(b: Seq<u8>, end: int, c: int, w: Seq<u8>)
+        requires valid_name(w), placed(b, c, w), 12 <= c, c + w.len() <= end <= b.len(),
+        ensures label_start(b, 12, end, c),
+    {
+        lemma_placed_name_lab_ok(b, 12, end, c, w, 0);
+        assert(b[c + 0] == w[0]);
+        let d = w.drop_last();
+        if d.len() == 0 { assert(w[0] == w.last()); } else { assert(w[0] == d[0]); }
     }
 
     /// ASCII case folding (RFC 4343).
